@@ -4,6 +4,7 @@ import (
 	"context"
 	"fmt"
 
+	apierrors "k8s.io/apimachinery/pkg/api/errors"
 	"k8s.io/apimachinery/pkg/runtime"
 	"sigs.k8s.io/controller-runtime/pkg/client"
 )
@@ -26,6 +27,11 @@ type LogClient struct {
 	FailErr  error
 	OnWrite  func(rec WriteRec) // called after every successful write
 	sequence int
+	// FailGetN > 0: the FailGetN-th Get (1-based) of an object whose kind is not ConfigMap fails with an internal
+	// error (NOT NotFound); every other Get succeeds.  0 = disabled.  GetFailed reports whether it happened.
+	FailGetN  int
+	GetFailed bool
+	getSeq    int
 }
 
 func NewLogClient(c client.Client) *LogClient { return &LogClient{Client: c, FailAt: -1} }
@@ -64,6 +70,18 @@ func (l *LogClient) post(rec WriteRec, err error) error {
 		l.OnWrite(rec)
 	}
 	return err
+}
+
+// Get counts the reads of non-ConfigMap objects and injects the read fault (FailGetN).
+func (l *LogClient) Get(ctx context.Context, key client.ObjectKey, obj client.Object, opts ...client.GetOption) error {
+	if l.FailGetN > 0 && kindOf(l.Scheme(), obj) != "ConfigMap" {
+		l.getSeq++
+		if l.getSeq == l.FailGetN {
+			l.GetFailed = true
+			return apierrors.NewInternalError(fmt.Errorf("injected read fault at get %d (%s %s)", l.getSeq, kindOf(l.Scheme(), obj), key))
+		}
+	}
+	return l.Client.Get(ctx, key, obj, opts...)
 }
 
 func (l *LogClient) Create(ctx context.Context, obj client.Object, opts ...client.CreateOption) error {
